@@ -164,6 +164,15 @@ func (e *env[T]) fTr(s string, name string) blas.Transpose {
 	if e.hit(name) {
 		return blas.Transpose('X')
 	}
+	// wrongTA: a Transpose value that other routines accept but this one
+	// documents as illegal (Trans for the Hermitian rank-k updates,
+	// ConjTrans for the complex symmetric ones).
+	if name == "badTA" && e.cx && (e.c.Fam == "syrk" || e.c.Fam == "syr2k") && e.hit("wrongTA") {
+		if e.c.Herm {
+			return blas.Trans
+		}
+		return blas.ConjTrans
+	}
 	return trFlag(s)
 }
 func (e *env[T]) fUl() blas.Uplo {
